@@ -602,45 +602,13 @@ fn build_empty_stco() -> Vec<u8> {
 }
 
 fn build_hvcc_fmp4(config: &FragmentConfig) -> Vec<u8> {
-    let num_arrays: u8 = if config.vps.is_some() { 3 } else { 2 };
-
-    let mut payload = vec![
-        1, // configuration_version
-        0, // general_profile_space (2 bits), general_tier_flag (1 bit), general_profile_idc (5 bits) - using defaults
-        0, 0, 0, 0, // general_profile_compatibility_flags
-        0, 0, 0, 0, 0, 0, // general_constraint_indicator_flags
-        0, // general_level_idc - using default
-        0, 0, // min_spatial_segmentation_idc
-        0, // parallelismType
-        0, // chromaFormat
-        0, // bitDepthLumaMinus8
-        0, // bitDepthChromaMinus8
-        0, 0,          // avgFrameRate
-        0x07, // constantFrameRate=0, numTemporalLayers=0, temporalIdNested=1, lengthSizeMinusOne=3 (4-byte lengths)
-        num_arrays, // numOfArrays
-    ];
-
-    // VPS array
-    if let Some(vps) = &config.vps {
-        payload.push(0b10100000); // array_completeness=1, reserved=0, nal_unit_type=32 (VPS)
-        payload.extend_from_slice(&(1u16).to_be_bytes()); // numNalus
-        payload.extend_from_slice(&(vps.len() as u16).to_be_bytes()); // nalUnitLength
-        payload.extend_from_slice(vps);
-    }
-
-    // SPS array
-    payload.push(0b10100001); // array_completeness=1, reserved=0, nal_unit_type=33 (SPS)
-    payload.extend_from_slice(&(1u16).to_be_bytes()); // numNalus
-    payload.extend_from_slice(&(config.sps.len() as u16).to_be_bytes()); // nalUnitLength
-    payload.extend_from_slice(&config.sps);
-
-    // PPS array
-    payload.push(0b10100010); // array_completeness=1, reserved=0, nal_unit_type=34 (PPS)
-    payload.extend_from_slice(&(1u16).to_be_bytes()); // numNalus
-    payload.extend_from_slice(&(config.pps.len() as u16).to_be_bytes()); // nalUnitLength
-    payload.extend_from_slice(&config.pps);
-
-    build_box(b"hvcC", &payload)
+    // Same record as the progressive muxer writes: reserved bits set, profile/tier/level from the SPS.
+    let hevc = crate::codec::h265::HevcConfig::new(
+        config.vps.clone().unwrap_or_default(),
+        config.sps.clone(),
+        config.pps.clone(),
+    );
+    crate::muxer::mp4::build_hvcc_box(&hevc)
 }
 
 fn build_av01_fmp4(config: &FragmentConfig) -> Vec<u8> {
@@ -668,14 +636,16 @@ fn build_av01_fmp4(config: &FragmentConfig) -> Vec<u8> {
 }
 
 fn build_av1c_fmp4(config: &FragmentConfig) -> Vec<u8> {
-    let mut payload = Vec::new();
-    payload.push(1); // version
-    payload.push(0); // seq_profile, seq_level_idx_0, seq_tier_0, high_bitdepth, twelve_bit, monochrome, chroma_subsampling_x, chroma_subsampling_y, chroma_sample_position, reserved
-    payload.push(0); // initial_presentation_delay_present, reserved
-    if let Some(seq_header) = &config.av1_sequence_header {
-        payload.extend_from_slice(seq_header);
-    }
-    build_box(b"av1C", &payload)
+    // Same record as the progressive muxer writes: marker bit, 4-byte header with the fields parsed
+    // from the supplied sequence header, then the configOBUs.
+    let seq_header = config.av1_sequence_header.as_deref().unwrap_or(&[]);
+    let av1 = crate::codec::av1::extract_av1_config(seq_header).unwrap_or_else(|| {
+        crate::codec::av1::Av1Config {
+            sequence_header: seq_header.to_vec(),
+            ..Default::default()
+        }
+    });
+    crate::muxer::mp4::build_av1c_box(&av1)
 }
 
 fn build_vp09_fmp4(config: &FragmentConfig) -> Vec<u8> {
